@@ -140,7 +140,7 @@ func parseFromStdin(cmd *cobra.Command) error {
 	parser := NewParser(cmd.OutOrStdout(), cmd.ErrOrStderr(), opts)
 
 	// Parse the stdin content (Parse accepts string input directly)
-	result, err := parser.Parse(string(content))
+	result, err := parser.ParseSQL(content)
 	if err != nil {
 		return err
 	}
